@@ -310,6 +310,9 @@ func isParamOfDecl(info *types.Info, fd *ast.FuncDecl, v *types.Var) bool {
 
 // ruleLoaderCache (C11): G-CACHEPATH and G-INVALIDATE.
 func ruleLoaderCache(c *Ctx) {
+	if c.ranOnce("ruleLoaderCache") {
+		return
+	}
 	ls := ruleLoaderCacheSSA(c)
 	if ls == nil {
 		return
